@@ -70,16 +70,21 @@ class FnEffects(ast.NodeVisitor):
         self.visit(node.body)
 
     def visit_If(self, node):
-        # the registered verification hook (MANIFEST.hooks): `if _VERIF: _verif_trace.append(...)`, where
+        # the registered verification hook (MANIFEST.hooks): `if _VERIF:` bodies that only build the local record `_vr` and append to
+        # `_verif_trace`, where
         # _VERIF is the SOLVERZ_VERIF=1 environment guard and _verif_trace is a write-only module-level log
         # (both facts are checked per file by `hook_is_write_only`).  With the guard off the branch is dead;
         # with it on the log is never read by the package, so it cannot carry state between calls.
         if (self.hook_ok and isinstance(node.test, ast.Name) and node.test.id == "_VERIF" and not node.orelse
-                and all(_is_trace_append(st) for st in node.body)):
+                and all(_is_hook_stmt(st) for st in node.body)):
             self.hook_sites += 1
-            for st in node.body:                      # the arguments are still analysed (they must be pure reads)
-                for a in st.value.args + [k.value for k in st.value.keywords]:
-                    self.visit(a)
+            for st in node.body:                      # the values recorded are still analysed (they must be pure reads)
+                val = st.value
+                if isinstance(val, ast.Call):
+                    for a in val.args + [k.value for k in val.keywords]:
+                        self.visit(a)
+                else:
+                    self.visit(val)
             return
         self.generic_visit(node)
 
@@ -164,9 +169,32 @@ def _is_trace_append(st):
             and st.value.func.value.id == "_verif_trace")
 
 
+def _is_record_stmt(st):
+    """statements that only build the hook's local record `_vr`: `_vr = dict(...)`, `_vr[...] = ...`, `_vr.update(...)`,
+    `_vr[...].append(...)`"""
+    if isinstance(st, ast.Assign) and len(st.targets) == 1 and _root(st.targets[0]) == "_vr":
+        return True
+    if isinstance(st, ast.Expr) and isinstance(st.value, ast.Call) and isinstance(st.value.func, ast.Attribute) \
+            and st.value.func.attr in ("update", "append") and _root(st.value.func.value) == "_vr":
+        return True
+    return False
+
+
+def _is_hook_stmt(st):
+    return _is_trace_append(st) or _is_record_stmt(st)
+
+
+def _hook_bodies(tree):
+    for n in ast.walk(tree):
+        if isinstance(n, ast.If) and isinstance(n.test, ast.Name) and n.test.id == "_VERIF" and not n.orelse \
+                and all(_is_hook_stmt(st) for st in n.body):
+            yield n
+
+
 def hook_is_write_only(tree) -> bool:
-    """_VERIF is exactly `<os>.environ.get('SOLVERZ_VERIF') == '1'`, assigned once at module level, and every
-    occurrence of _verif_trace is its module-level `= []` or an `.append(...)` statement directly under `if _VERIF:`."""
+    """_VERIF is exactly `<os>.environ.get('SOLVERZ_VERIF') == '1'`, assigned once at module level; every occurrence of
+    _verif_trace is its module-level `= []` or an `.append(...)` statement directly under `if _VERIF:`; the local record
+    `_vr` occurs only inside such `if _VERIF:` bodies (so nothing outside the hook can read what the hook wrote)."""
     guard = [st for st in tree.body if isinstance(st, ast.Assign) and any(isinstance(t, ast.Name) and t.id == "_VERIF" for t in st.targets)]
     if len(guard) != 1:
         return False
@@ -182,15 +210,17 @@ def hook_is_write_only(tree) -> bool:
             if not (isinstance(st.value, ast.List) and not st.value.elts):
                 return False
             allowed.add(id(st.targets[0]))
+    for n in _hook_bodies(tree):
+        for st in n.body:
+            for sub in ast.walk(st):
+                if isinstance(sub, ast.Name) and sub.id in ("_verif_trace", "_vr"):
+                    allowed.add(id(sub))
+            if _is_trace_append(st) is False and any(isinstance(sub, ast.Name) and sub.id == "_verif_trace" for sub in ast.walk(st)):
+                return False                      # the log is only appended to, never read
     for n in ast.walk(tree):
-        if isinstance(n, ast.If) and isinstance(n.test, ast.Name) and n.test.id == "_VERIF":
-            for st in n.body:
-                if _is_trace_append(st):
-                    allowed.add(id(st.value.func.value))
-    for n in ast.walk(tree):
-        if isinstance(n, ast.Name) and n.id == "_verif_trace" and id(n) not in allowed:
+        if isinstance(n, ast.Name) and n.id in ("_verif_trace", "_vr") and id(n) not in allowed:
             return False
-        if isinstance(n, ast.Global) and ("_verif_trace" in n.names or "_VERIF" in n.names):
+        if isinstance(n, ast.Global) and any(x in n.names for x in ("_verif_trace", "_VERIF", "_vr")):
             return False
     return True
 
